@@ -236,8 +236,11 @@ class Model_cfit_cached(Model_cfit):
                 for i in mcdata
             ]
 
+        def sig(x, c_data):
+            return self.eff(x) * self.cached_amp(x, c_data)
+
         int_sig, g_int_sig = sum_gradient_data2(
-            self.cached_amp,
+            sig,
             self.Amp.trainable_variables,
             mcdata,
             self.cached_data[mc_id],
